@@ -377,6 +377,7 @@ fn limit_world(c: &LimitCase) -> WorldSpec {
         raw: HexBytes(vec![0u8; 64]),
         height: 0,
         dag: true,
+        alt_base: false,
     }
 }
 
